@@ -411,6 +411,28 @@ class EngineBase:
         t = self.cur_target or "?"
         return f"{self.prop}/{t}/{kind}" + (f"@{where}" if where else "")
 
+    def mark_dirty(self, p: Path, why: str):
+        """An event that may change IR state (effect obligations).  Besides the sticky path flag `$ir_dirty` consulted by
+        ir_clean(), a contract may keep a symbolic edit counter: if the target declared the ghost local `g_edits`, every such
+        event increments it (so that `no edit happened` can be related to program variables across loop cuts)."""
+        p.ghost["$ir_dirty"] = p.ghost.get("$ir_dirty") or why
+        for f in p.frames:
+            if "g_edits" in f.locals:
+                from .types import VInt
+                f.locals["g_edits"] = VInt(f.locals["g_edits"].z + 1)
+                break
+
+    def havoc_edit_counter(self, p: Path):
+        """At a loop cut whose body may change IR state: an unknown number (>= 0) of earlier edits."""
+        for f in p.frames:
+            if "g_edits" in f.locals:
+                from .types import VInt, fresh_name
+                import z3 as _z3
+                n = _z3.Int(fresh_name("g_edits"))
+                p.assume(n >= f.locals["g_edits"].z)
+                f.locals["g_edits"] = VInt(n)
+                break
+
     def feasible(self, p: Path) -> bool:
         if p.dead:
             return False
